@@ -38,6 +38,11 @@ import (
 func init() {
 	components["json"] = jsonComponent
 	replayers["jres"] = func(f []string) string { return runJRes(f[1]) }
+	replayers["juniqbig"] = func(f []string) string {
+		n, _ := strconv.Atoi(f[1])
+		rep, _ := strconv.Atoi(f[2])
+		return runUniqBig(n, rep)
+	}
 	replayers["jlog"] = func(f []string) string { return runJLog(f[1], f[2]) }
 }
 
@@ -872,6 +877,57 @@ func logReal(uniq bool, rs []scan.Result) string {
 	return strings.Join(parts, ",")
 }
 
+// runUniqBig: N distinct hosts (ARP results 10.a.b.c), then the first R of them again, then every third of
+// them once more, through the real UniqueLogger.  Observed = number of lines written, whether they are
+// exactly the N hosts in first-sighting order.  (Too long to list: counted.)
+func runUniqBig(n, rep int) string {
+	w := &countWriter{}
+	l, err := log.NewLogger(w, "json", log.JSON())
+	if err != nil {
+		return "ERR " + err.Error()
+	}
+	l = log.NewUniqueLogger(l)
+	host := func(i int) string { return fmt.Sprintf("10.%d.%d.%d", i>>16&255, i>>8&255, i&255) }
+	ch := make(chan scan.Result, 1024)
+	go func() {
+		defer close(ch)
+		for i := 0; i < n; i++ {
+			ch <- &arp.ScanResult{IP: host(i), MAC: "02:00:00:00:00:01"}
+		}
+		for i := 0; i < rep && i < n; i++ {
+			ch <- &arp.ScanResult{IP: host(i), MAC: "02:00:00:00:00:02"}
+		}
+		for i := 0; i < n; i += 3 {
+			ch <- &arp.ScanResult{IP: host(i), MAC: "02:00:00:00:00:03"}
+		}
+	}()
+	done := make(chan struct{})
+	go func() { defer close(done); l.LogResults(context.Background(), ch) }()
+	select {
+	case <-done:
+	case <-time.After(120 * time.Second):
+		return "TIMEOUT"
+	}
+	inorder := 1
+	if len(w.lines) != n {
+		inorder = 0
+	}
+	for i, ln := range w.lines {
+		if i < n && !strings.Contains(ln, "\""+host(i)+"\"") || !strings.Contains(ln, "02:00:00:00:00:01") {
+			inorder = 0
+			break
+		}
+	}
+	return fmt.Sprintf("lines=%d;first_sightings_in_order=%d", len(w.lines), inorder)
+}
+
+type countWriter struct{ lines []string }
+
+func (w *countWriter) Write(p []byte) (int, error) {
+	w.lines = append(w.lines, string(p))
+	return len(p), nil
+}
+
 func runJLog(u, encs string) string {
 	var rs []scan.Result
 	if encs != "-" {
@@ -1013,6 +1069,12 @@ func jsonComponent(r *hx.Run) {
 			class = ""
 		}
 		r.Case(class, "jlog", u, e, logReal(uniq, rs))
+	}
+	// de-duplication over MANY distinct hosts (a live scan of a large network): more than 2^16 of them
+	for _, n := range []int{65536 + 1 + r.Rng.Intn(50), 70000 + r.Rng.Intn(20000)} {
+		rep := 1 + r.Rng.Intn(n)
+		r.Count("uniqbig")
+		r.Case("uniqbig", "juniqbig", strconv.Itoa(n), strconv.Itoa(rep), runUniqBig(n, rep))
 	}
 }
 
